@@ -50,6 +50,9 @@ type LaunchClaim struct {
 type LaunchIn struct {
 	*world.Scenario
 	ExpireAfter int `json:"expireAfter"`
+	// ExpireFrac > 0: the time budget is that fraction of the Value() calls an unbounded pass over an identical world makes
+	// (measured by a dry run first), so that the deadline strikes inside the pass whatever the size of the world
+	ExpireFrac float64 `json:"expireFrac,omitempty"`
 }
 
 // expiringCtx reports DeadlineExceeded (and closes Done) from its (limit+1)-th Value() call on; Provisioner.Schedule derives
@@ -85,7 +88,8 @@ func implLaunch(raw json.RawMessage) (any, error) {
 		return nil, err
 	}
 	var ext struct {
-		ExpireAfter int `json:"expireAfter"`
+		ExpireAfter int     `json:"expireAfter"`
+		ExpireFrac  float64 `json:"expireFrac"`
 	}
 	_ = json.Unmarshal(raw, &ext)
 	maxITMu.Lock()
@@ -94,6 +98,21 @@ func implLaunch(raw json.RawMessage) (any, error) {
 		old := provsched.MaxInstanceTypes
 		provsched.MaxInstanceTypes = s.MaxInstanceTypes
 		defer func() { provsched.MaxInstanceTypes = old }()
+	}
+	if ext.ExpireFrac > 0 {
+		// dry run on an identical world with a context that only counts
+		var s0 world.Scenario
+		if err := json.Unmarshal(raw, &s0); err != nil {
+			return nil, err
+		}
+		w0, err := world.Build(&s0)
+		if err != nil {
+			return nil, err
+		}
+		w0.Cluster.SetSynced(true)
+		counter := &expiringCtx{Context: w0.Ctx, limit: 1 << 60, done: make(chan struct{})}
+		_, _ = w0.Prov.Schedule(counter)
+		ext.ExpireAfter = 1 + int(ext.ExpireFrac*float64(counter.calls.Load()))
 	}
 	w, err := world.Build(&s)
 	if err != nil {
@@ -206,8 +225,10 @@ func genLaunch(r *rand.Rand, t core.Tier) any {
 	}
 	in := LaunchIn{Scenario: s}
 	// a quarter of the passes run out of time after some pods have been placed
-	if r.Float64() < 0.25 {
+	if x := r.Float64(); x < 0.12 {
 		in.ExpireAfter = 30 + r.IntN(600)
+	} else if x < 0.35 {
+		in.ExpireFrac = 0.15 + 0.84*r.Float64()
 	}
 	return in
 }
@@ -232,10 +253,11 @@ func launchOp() *core.Op {
 			m, _ := impl.(map[string]any)
 			c, _ := m["claims"].([]any)
 			var ext struct {
-				ExpireAfter int `json:"expireAfter"`
+				ExpireAfter int     `json:"expireAfter"`
+				ExpireFrac  float64 `json:"expireFrac"`
 			}
 			json.Unmarshal(raw, &ext)
-			l := []string{fmt.Sprintf("claims=%d", min(len(c), 4)), fmt.Sprintf("expiring-context=%v", ext.ExpireAfter > 0), fmt.Sprintf("maxIT=%d", s.MaxInstanceTypes), fmt.Sprintf("bestEffort=%v", s.BestEffortMinVal), fmt.Sprintf("daemonsets=%d", len(s.DaemonSets))}
+			l := []string{fmt.Sprintf("claims=%d", min(len(c), 4)), fmt.Sprintf("expiring-context=%v", ext.ExpireAfter > 0 || ext.ExpireFrac > 0), fmt.Sprintf("maxIT=%d", s.MaxInstanceTypes), fmt.Sprintf("bestEffort=%v", s.BestEffortMinVal), fmt.Sprintf("daemonsets=%d", len(s.DaemonSets))}
 			for _, p := range s.Pools {
 				for _, e := range p.Reqs {
 					if e.MinValues != nil {
